@@ -211,7 +211,10 @@ Definition op_urlref (args : list sx) : sx :=
    faulting destination: (accepted count ok) *)
 Definition dest_of (budget : Z) (mode : Z) : dest :=
   {| d_acc := []; d_budget := if (budget <? 0)%Z then None else Some (Z.to_N budget);
-     d_mode := if (mode =? 0)%Z then ErrOnly else ShortThenErr |}.
+     (* 0: a failing Write accepts nothing; 1: it accepts what fits and reports the error; 2: it accepts
+        what fits and reports NO error (ReadFrom must answer io.ErrShortWrite); 3: as 0, behind a
+        destination that is itself an io.ReaderFrom (ReadFrom delegates to it) *)
+     d_mode := if ((mode =? 0) || (mode =? 3))%Z then ErrOnly else ShortThenErr |}.
 Definition op_cw_writes (args : list sx) : sx :=
   match args with
   | [SL cs; SZ budget; SZ mode] =>
